@@ -178,6 +178,87 @@ namespace
     ctx.nontrivial();
     if (idx % 5 == 1) ctx.sample(desc0);
   }
+  // ---- suite C: validity over the model parameters ----
+  // deflection (deflected model) x size settings x feature type x model; several points per feature (for slabs and faults at different
+  // positions between the two trench coordinates, where the grains of the two sections are blended) x grain counts
+  struct SizeCfg { const char *name; double size[2]; bool norm[2]; };   // index 0: composition 1 (listed first), index 1: composition 0
+  const SizeCfg SIZES[4] =
+  {
+    {"random normalised / fixed 0.3", {-1, 0.3}, {true, false}},
+    {"fixed 0 / fixed 0.3", {0, 0.3}, {false, false}},
+    {"fixed 2.5 / random not normalised", {2.5, -1}, {false, false}},
+    {"random normalised / random normalised", {-1, -1}, {true, true}},
+  };
+  const double DEFLECTIONS[6] = {0.5, 0.0, 1e-3, 1e-2, 0.1, 1.0};
+  void run_validity(uint64_t idx, Ctx &ctx)
+  {
+    static const int c_rot = Ctx::counter_id("rotation_matrices_checked");
+    const Radix rx({COMBOS.size(), 6, 4, 2});
+    const auto d = rx.decode(idx);
+    const Combo &c = COMBOS[d[0]];
+    const double defl = DEFLECTIONS[d[1]];
+    if (c.model == 0 && d[1] != 0) return;     // the undeflected model has no deflection parameter
+    const SizeCfg &sc = SIZES[d[2]];
+    const unsigned long seed = d[3] == 0 ? 1 : 77;
+    std::string g = "{\"model\":\"" + std::string(MODEL[c.model]) + "\",\"compositions\":[1,0],\"grain sizes\":[" + num(sc.size[0]) + "," + num(sc.size[1]) + "],\"normalize grain sizes\":[" + (sc.norm[0] ? "true" : "false") + "," + (sc.norm[1] ? "true" : "false") + "]";
+    if (c.model == 1) g += ",\"deflections\":[" + num(defl) + "," + num(defl) + "],\"basis Euler angles z-x-z\":[[10,20,30],[0,0,0]]";
+    g += "}";
+    std::string text = world_text(c, -1);
+    const std::string old = grains_model(c.model);
+    const size_t pos = text.find(old);
+    if (pos == std::string::npos) { ctx.violation("harness/C15-grains-model-not-found", "{}"); return; }
+    text.replace(pos, old.size(), g);
+    auto a = make_world(text, seed, "a"), b = make_world(text, seed, "b");
+    const std::string desc = JObj().str("feature", TYPE[c.type]).str("model", MODEL[c.model]).num("deflection", c.model == 1 ? defl : NAN).str("sizes", sc.name).integer("constructor_seed", static_cast<long long>(seed)).done();
+    // points inside the feature: (x, y) at depth 1.2e5; for the slab (45 degrees, trench x = 1e5) and the vertical fault (x = 2e5) at several positions along the trench
+    std::vector<P3> pts_;
+    for (double y : {-0.9e5, 0.5e5, 2.1e5, 3.7e5, 4.95e5})
+      {
+        if (c.type <= 3 && (y < 0.2e5 || y > 3.8e5)) continue;
+        pts_.push_back(query_point(false, 1.9e5, c.type == 3 ? 2.1e5 : y, D_IN));
+        if (c.type == 3) break;
+      }
+    bool any = false;
+    for (const P3 &p : pts_)
+      for (unsigned ci = 0; ci < 2; ++ci) for (unsigned k : {1u, 2u, 7u})
+          {
+            const unsigned comp = ci == 0 ? 1 : 0;
+            const std::vector<double> va = a->properties(p, D_IN, {{{3,comp,k}}}), vb = b->properties(p, D_IN, {{{3,comp,k}}});
+            ctx.eval();
+            auto bad = [&](const std::string &sig, const std::string &what)
+            { ctx.violation(sig, JObj().str("what", what).raw("point", jarr(p)).integer("composition", comp).integer("grains", k).raw("answer", jarr(va)).raw("case", desc).str("world", text).done()); };
+            if (!biteq(va, vb)) { bad(std::string("C15/twins-disagree/") + TYPE[c.type], "two worlds built alike and queried alike disagree"); return; }
+            if (va.size() != 10*k) { bad("C15/size", "wrong size"); return; }
+            bool zero = true;
+            for (double x : va) if (x != 0) zero = false;
+            if (zero) { bad(std::string("C15/validity/point-not-inside/") + TYPE[c.type], "harness: the probe is not inside the feature (all-zero grains)"); return; }
+            any = true;
+            double sum = 0;
+            for (unsigned gi = 0; gi < k; ++gi) sum += va[gi];
+            if (sc.norm[ci]) { if (!(std::fabs(sum - 1.0) <= 1e-12)) { bad(std::string("C15/grain-sizes-not-normalised/") + TYPE[c.type], "sizes requested as normalised do not sum to one"); return; } }
+            else if (sc.size[ci] >= 0)
+              { for (unsigned gi = 0; gi < k; ++gi) if (!(std::fabs(va[gi] - sc.size[ci]) <= 1e-15)) { bad(std::string("C15/fixed-grain-size-not-returned/") + TYPE[c.type] + (sc.size[ci] == 0 ? "/size-0" : ""), "fixed grain size " + num(sc.size[ci]) + " not returned as given"); return; } }
+            else
+              { for (unsigned gi = 0; gi < k; ++gi) if (!(va[gi] >= 0 && va[gi] <= 1)) { bad(std::string("C15/grain-size-out-of-range/") + TYPE[c.type], "random grain size outside [0,1]"); return; } }
+            for (unsigned gi = 0; gi < k; ++gi)
+              {
+                const double *R = &va[k + 9*gi];
+                ctx.count(c_rot);
+                double err = 0;
+                for (int i = 0; i < 3; ++i) for (int j = 0; j < 3; ++j)
+                    {
+                      double t = 0;
+                      for (int m = 0; m < 3; ++m) t += R[3*i+m]*R[3*j+m];
+                      err = std::max(err, std::fabs(t - (i == j ? 1.0 : 0.0)));
+                    }
+                const double det = R[0]*(R[4]*R[8]-R[5]*R[7]) - R[1]*(R[3]*R[8]-R[5]*R[6]) + R[2]*(R[3]*R[7]-R[4]*R[6]);
+                if (!(err <= 1e-12) || !(std::fabs(det - 1.0) <= 1e-12))
+                  { bad(std::string("C15/rotation-matrix-invalid/") + TYPE[c.type] + "/" + MODEL[c.model], "random grain orientation is not a proper rotation (|RR^T-I|=" + num(err) + ", det=" + num(det) + ")"); return; }
+              }
+          }
+    if (any) ctx.nontrivial();
+    if (idx % 61 == 5) ctx.sample(desc);
+  }
 }
 
 int main(int argc, char **argv)
@@ -188,7 +269,7 @@ int main(int argc, char **argv)
   spec.rule = "sequence suites: for each of the 11 (feature type, random grains model) combinations every sequence of length <= D over 6 operations (grains with 1/2/5 grains inside, grains outside, "
               "random compositions, temperature) is executed on twin worlds built alike: answers and serialised engines must agree at every step, every answer is validated (orthonormality, determinant, "
               "normalisation, fixed sizes, composition bounds); seed suite: 11 combinations x seed source {constructor, file, both} x 5 seeds: twins agree, the file seed overrides the constructor seed, "
-              "all pairs of distinct seeds give distinct first draws. states = distinct engine states reached; every sequence is distinct by construction and non-trivial";
+              "all pairs of distinct seeds give distinct first draws; validity suite: full product of combination x deflection x size settings x seed, every grain of every answer validated. states = distinct engine states reached; every sequence is distinct by construction and non-trivial";
   spec.assumptions = {"tolerance 1e-12 for orthonormality/determinant/normalisation", "a 'random number seed' entry >= 0 in the file is the seed of the world whatever the constructor argument"};
   spec.counters = {"transitions", "traces", "rotation_matrices_checked"};
   spec.quick_deadline_s = 300; spec.thorough_deadline_s = 1500;
@@ -213,6 +294,10 @@ int main(int argc, char **argv)
     Suite b; b.name = "seeds"; b.n = COMBOS.size()*3; b.run = run_seeds;
     b.bound = "11 combinations x seed source {constructor, file, file+constructor} x seeds {0,1,2,1000,2^32-1 | 2^31-1}, all pairs";
     s.push_back(b);
+    Suite v; v.name = "validity"; v.n = COMBOS.size()*6*4*2; v.run = run_validity;
+    v.bound = "11 combinations x deflection {0.5, 0, 1e-3, 1e-2, 0.1, 1} (deflected model) x 4 size settings (random normalised, fixed 0, fixed 0.3, fixed 2.5, random not normalised) x 2 seeds; up to 5 points per feature "
+              "(slab / fault: 5 positions between the trench coordinates) x both compositions x {1,2,7} grains: proper rotations, normalisation, fixed sizes as given, twins agree";
+    s.push_back(v);
     return s;
   });
 }
